@@ -504,13 +504,29 @@ func (em *emitter) prepareCallParameters(fType reflect.Type, fArgs []ast.Express
 func (em *emitter) prepareFunctionBodyParameters(fn *ast.Func) {
 
 	// Reserve space for the return parameters and eventually bind them.
+	//
+	// A function that recovers from a panic returns the values that its
+	// result parameters have: if the body has a defer statement, the result
+	// parameters without a name are set to their zero value, because their
+	// registers hold the values left by a previous call.
+	var zeroResults []int8
+	var zeroTypes []reflect.Type
+	hasDefer := fn.Body != nil && hasDeferStatement(fn.Body.Nodes)
 	for _, out := range fn.Type.Result {
-		kind := em.typ(out.Type).Kind()
-		reg := em.fb.newRegister(kind)
+		typ := em.typ(out.Type)
+		reg := em.fb.newRegister(typ.Kind())
 		if out.Ident != nil && !isBlankIdentifier(out.Ident) {
 			em.fb.bindVarReg(out.Ident.Name, reg)
+		} else if hasDefer {
+			zeroResults = append(zeroResults, reg)
+			zeroTypes = append(zeroTypes, typ)
 		}
 	}
+	defer func() {
+		for i, reg := range zeroResults {
+			em.emitZeroValue(reg, zeroTypes[i])
+		}
+	}()
 
 	// Reserve space for the input parameters and eventually bind them.
 	for i, inParam := range fn.Type.Parameters {
